@@ -290,6 +290,7 @@ def r_marker(ctx):
     # the writer's marker: the literal between the cumulative worker's own name and the unit index in the names of the
     # unit workers CumulativeWorker.__init__ creates (taken from the extracted IR, whatever way the string is spelled)
     writer = None
+    foreign = None
     for run in runs_of(ctx, Entry("init", cls="CumulativeWorker", opaque=("_distribute_p_over_n",))):
         for ev in run.events_of("new"):
             if ev.data["cls"] != "Worker":
@@ -299,6 +300,16 @@ def r_marker(ctx):
                 lits = [q[1] for q in nm[1] if is_const(q) and isinstance(q[1], str) and q[1].strip("_")]
                 if lits and nm[1][0] == A(S("self"), "name"):
                     writer = lits[0]
+                elif lits:
+                    foreign = (show(nm)[:160], ev.site.lineno)
+    if writer is None and foreign is not None:
+        # the reporters recover the cumulative worker by cutting the unit's name at the marker: what stands before the marker
+        # must be the cumulative worker's own name, unchanged
+        ctx.violation("R-MARKER", "CumulativeWorker.__init__", "unit worker names start with the cumulative worker's own name",
+                      f"unit workers are named {foreign[0]}: the part before the marker is not `self.name` itself, so the reporters "
+                      f"(which cut the unit's name at the marker) report the cumulative worker under a name that is not its own "
+                      f"whenever the two differ", f"processscheduler/resource.py:{foreign[1]}")
+        return
     if writer is None:
         raise P.AnalysisError("R-MARKER: the unit worker name template of CumulativeWorker was not found")
     readers = []
